@@ -57,8 +57,8 @@ var (
 	// context.Canceled from a retransmission differently from other errors
 	errSendCanceled = &injectedErr{"canceled", context.Canceled}
 	errSendDeadline = &injectedErr{"deadline", context.DeadlineExceeded}
-	errDecode   = errors.New("harness: decode failed")
-	errDrop     = errors.New("harness: drop failed")
+	errDecode       = errors.New("harness: decode failed")
+	errDrop         = errors.New("harness: drop failed")
 )
 
 type injectedErr struct {
